@@ -19,7 +19,7 @@ CLAIMS = {
             "MbapHead is defined on the concatenated stream only; pipelined streams of 1-4 buffer capacities and every malformed header kind are delivered under systematic chunkings (1-byte, 259/260/261, split at every offset, buffer-filling) and must validate against that chunk-oblivious reference",
             "§7 C05", TRUST + "chunkings are enumerated systematically for short streams and sampled for long ones"),
     "C06": ("e1-session", "model_checking",
-            "CRC-16/MODBUS computed by TLC itself (Rtu.tla): every frame the session emits must equal RtuFrame(..), and corrupted request frames (all 1-bit, sampled 2-bit, bursts <= 16 bits, several chunkings) must produce exactly what RtuHead prescribes on the corrupted stream (no call, no reply, session error)",
+            "CRC-16/MODBUS computed by TLC itself (Rtu.tla): every frame the session emits must equal RtuFrame(..), and corrupted request frames (all 1-bit, sampled 2-bit, bursts <= 16 bits, several chunkings) must produce exactly what RtuHead prescribes on the corrupted stream (no call, no reply, session error); damage in the byte-count field followed by as many port re-opens as the reader needs (session level and the RTU server task under virtual time); both roles additionally on a real serial device (pseudo-terminal opened by tokio_serial, no hook): RTU channel task and RTU server task, frames on the bus compared with RtuFrame(..)",
             "§7 C06", TRUST + "long-frame corruptions are sampled in the quick tier"),
     "C07": ("e1-session", "exploration",
             "structured fuzzing (random bytes, grammar-aware mutation, boundary addresses, decode levels, both framings) of the production session under overflow checks; TLC validates every run against the total reference: a panic, a task that never becomes idle, or an unhonoured shutdown has no matching specification step",
@@ -28,7 +28,7 @@ CLAIMS = {
             "authorization modelled in ServerRef.tla (policy functions of kind, unit, range, role); grid of 8 kinds x allow/deny/read-only x configured/unconfigured/broadcast unit x role strings, plus random per-request hash policies; trace validation requires the single auth event with exact arguments before any effect and exception 01 with no handler call on deny",
             "§7 C08", TRUST + "role strings are injected through the verif-hooks constructor"),
     "C17": ("e1-session", "model_checking",
-            "unit-id sweep (boundary ids quick, all 256 thorough) x request classes x handler maps of 0-3 units on RTU and TCP framing; silence is observed at quiescence points, broadcast writes must appear exactly once per configured unit in the handler log and never be answered",
+            "unit-id sweep (boundary ids quick, all 256 thorough) x request classes x handler maps of 0-3 units on RTU and TCP framing; silence is observed at quiescence points, broadcast writes must appear exactly once per configured unit in the handler log and never be answered; the same discipline black-box: the RTU server task on a pseudo-terminal through tokio_serial (unit ids, broadcast, exceptions, maximum-size and split frames)",
             "§7 C17", TRUST + "absence is established under virtual time on a current-thread runtime"),
     "C20": ("e1-session", "model_checking",
             "the specification never reads the decode level, so one reference behaviour serves every level: base scripts are replayed at lowest/highest (thorough: all 36) levels and with set_decode_level injected at sampled/every position (also mid-frame) with a tracing subscriber installed; all must validate against the same reference",
